@@ -16,8 +16,8 @@ def shapes(n, kind):
                 pad = lambda t: ",".join(map(str, list(t) + [0] * (3 - n)))
                 lab = "n%d_a%s_v%s_r%s" % (n, "".join(map(str, acc)), "".join(map(str, val)), "".join(map(str, rd)))
                 if kind == 2:
-                    # F15 shapes, by arrival order (round, then endpoint index); the label prefix lets a known-finding
-                    # entry match exactly these shapes:
+                    # shapes that exposed F15 (repaired in 506fa41), by arrival order (round, then endpoint index); the label
+                    # prefix is kept so that a regression shows up under a recognisable name:
                     #   f15_  : a valid configuration precedes a failure (the later failure fails the user handle)
                     #   f15b_ : failure, valid configuration, then another valid configuration (the handle keeps state
                     #           ERROR with cleared error fields; the next configuration reply is dropped)
@@ -90,9 +90,9 @@ plan = {
                 "hands the user handle back exactly once (first valid reply wins with its response and origin, later replies discarded; ERROR only after the last accepted copy failed), reports every failed endpoint exactly once (error notice or the handle's own error) and brings the "
                 "expected-reply counter to 0; the same monitor for configuration requests. (2) Consolidation: for every sequence of 2..3 (thorough 4) configurations with each numeric field absent or any 64-bit value, the consolidated configuration equals the independent reference "
                 "(max level 1..20, min period 100..20000, max requests 1..16000, earliest first time / latest last time >= 1136073600, out-of-range ignored) after every step, the change flag is exact, and a second service fed a symbolic permutation ends in the same state. "
-                "Defects found: F10 (range predicates used || - every value accepted) and F11 (calendar last time range-checked only when before the consolidated first time) - both repaired in /repo (e1662f3, b21e020); "
-                "F15 (a configuration request is failed by an endpoint error that arrives after another endpoint's valid configuration) is recorded as a known finding (harness/C15/known_entries.json; it affects exactly the h2_confreq shapes labelled f15_*) - see FINDINGS.md; "
-                "with the proposed patch every harness passes without exceptions.",
+                "Defects found and repaired in /repo: F10 (range predicates used || - every value accepted; e1662f3), F11 (calendar last time range-checked only when before the consolidated first time; b21e020), "
+                "F15 (a configuration request was failed by an endpoint error arriving after another endpoint's valid configuration, and with three endpoints a configuration reply after failure+configuration was dropped; 506fa41) - see FINDINGS.md. "
+                "The check passes on the repaired tree without known-finding exceptions.",
   "level_note": "Trusted base: sub-service stub, payload models, callback stubs, KSI_Integer construction outside the small-integer pool, hash-algorithm trust stub (plan.json assumptions). Scenario shapes of the request machine are enumerated concretely by the driver (values symbolic only for external error codes); "
                 "the hash-algorithm and parent-URI fields are 'last value wins' by design and excluded from the order-independence claim. Outside: > 3 endpoints, several requests interleaved, > 4 configurations, endpoint set-up, allocation failure."
  },
